@@ -249,7 +249,7 @@ class NotTabulable(AnalysisError):
 
 
 class OrderEval:
-    """Evaluates a loop-free, comparison-only function body over an *ordering assignment*.
+    """Evaluates a comparison-only function body over an *ordering assignment* (loop-free, or looping over finite concrete collections of the case).
 
     ``env`` maps access paths (``self.time``) or parameter names to abstract values: ints act as ranks
     (representatives of an order-equivalence class), tuples/None/bools/strs are themselves.  Supported:
@@ -301,7 +301,57 @@ class OrderEval:
             return None
         if isinstance(st, ast.Raise):
             return ("ret", ("raise", unparse(st.exc.func) if isinstance(st.exc, ast.Call) else unparse(st.exc)))
+        if isinstance(st, ast.Break):
+            return ("break", None)
+        if isinstance(st, ast.Continue):
+            return ("continue", None)
+        if isinstance(st, ast.For):
+            # a loop over a *finite, concrete* collection of the case under evaluation (a display, a set/dict of the environment)
+            for item in self._iterable(self.ev(st.iter)):
+                self._assign(st.target, item)
+                r = self._block(st.body)
+                if r is not None:
+                    if r[0] == "break":
+                        break
+                    if r[0] == "continue":
+                        continue
+                    return r
+            else:
+                if st.orelse:
+                    return self._block(st.orelse)
+            return None
         raise NotTabulable(f"statement not tabulable: {norm_stmt(st)}")
+
+    @staticmethod
+    def _iterable(v):
+        if isinstance(v, (tuple, list)):
+            return list(v)
+        if isinstance(v, (set, frozenset)):
+            return sorted(v, key=repr)  # deterministic; rules that tabulate set iteration must not depend on the order
+        if isinstance(v, dict):
+            return list(v.keys())
+        raise NotTabulable("iteration over a value that is not a finite collection")
+
+    def _comp(self, e):
+        """[elt for target in iter if ...] with one or more generators, evaluated eagerly over finite collections"""
+        out = []
+
+        def rec(i):
+            if i == len(e.generators):
+                if isinstance(e, ast.DictComp):
+                    out.append((self.ev(e.key), self.ev(e.value)))
+                else:
+                    out.append(self.ev(e.elt))
+                return
+            g = e.generators[i]
+            for item in self._iterable(self.ev(g.iter)):
+                self._assign(g.target, item)
+                if all(self.truth(self.ev(c)) for c in g.ifs):
+                    rec(i + 1)
+        saved = dict(self.locals)
+        rec(0)
+        self.locals = saved
+        return out
 
     def _assign(self, tgt, v):
         if isinstance(tgt, ast.Name):
@@ -333,6 +383,13 @@ class OrderEval:
                 return a * b
             if isinstance(op, ast.FloorDiv) and b:
                 return a // b
+        if isinstance(a, (set, frozenset)) and isinstance(b, (set, frozenset)):
+            if isinstance(op, ast.BitOr):
+                return a | b
+            if isinstance(op, ast.BitAnd):
+                return a & b
+            if isinstance(op, ast.Sub):
+                return a - b
         raise NotTabulable("binop not tabulable")
 
     def ev(self, e):
@@ -399,6 +456,23 @@ class OrderEval:
             return True
         if isinstance(e, ast.BinOp):
             return self._binop(e.op, self.ev(e.left), self.ev(e.right))
+        if isinstance(e, (ast.GeneratorExp, ast.ListComp)):
+            return tuple(self._comp(e))
+        if isinstance(e, ast.SetComp):
+            return frozenset(self._comp(e))
+        if isinstance(e, ast.DictComp):
+            return dict(self._comp(e))
+        if isinstance(e, ast.Subscript) and path_of(e) is None:
+            base = self.ev(e.value)
+            if isinstance(base, (dict, tuple, list)) and not isinstance(e.slice, ast.Slice):
+                k = self.ev(e.slice)
+                try:
+                    return base[k]
+                except (KeyError, IndexError, TypeError) as exc:
+                    raise NotTabulable(f"subscript: {exc}") from exc
+        if isinstance(e, (ast.Set, ast.List)):
+            vals = [self.ev(x) for x in e.elts]
+            return frozenset(vals) if isinstance(e, ast.Set) else tuple(vals)
         if isinstance(e, ast.Call):
             fname = path_of(e.func)
             if fname in self.calls:
@@ -406,6 +480,41 @@ class OrderEval:
             if fname in ("max", "min") and e.args and not e.keywords:
                 vals = [self.ev(a) for a in e.args]
                 return (max if fname == "max" else min)(vals)
+            if fname in ("any", "all", "sum", "len", "set", "frozenset", "sorted", "list", "tuple", "abs") and len(e.args) == 1 and not e.keywords:
+                arg = self.ev(e.args[0])
+                if fname == "abs":
+                    return abs(arg)
+                if fname == "len":
+                    return len(arg)
+                items = self._iterable(arg)
+                if fname == "any":
+                    return any(self.truth(x) for x in items)
+                if fname == "all":
+                    return all(self.truth(x) for x in items)
+                if fname == "sum":
+                    return sum(items)
+                if fname in ("set", "frozenset"):
+                    return frozenset(items)
+                if fname == "sorted":
+                    return tuple(sorted(items))
+                return tuple(items)
+            if fname in ("set", "frozenset", "dict", "list", "tuple") and not e.args and not e.keywords:
+                return {"set": frozenset(), "frozenset": frozenset(), "dict": {}, "list": (), "tuple": ()}[fname]
+            if isinstance(e.func, ast.Attribute) and e.func.attr in ("get", "keys", "values", "items") and not e.keywords:
+                try:
+                    recv = self.ev(e.func.value)
+                except NotTabulable:
+                    recv = None
+                if isinstance(recv, dict) and "__class__" not in recv:
+                    if e.func.attr == "get" and 1 <= len(e.args) <= 2:
+                        k = self.ev(e.args[0])
+                        return recv[k] if k in recv else (self.ev(e.args[1]) if len(e.args) == 2 else None)
+                    if e.func.attr == "keys" and not e.args:
+                        return tuple(recv.keys())
+                    if e.func.attr == "values" and not e.args:
+                        return tuple(recv.values())
+                    if e.func.attr == "items" and not e.args:
+                        return tuple(recv.items())
             if fname == "isinstance":
                 v = self.ev(e.args[0])
                 if isinstance(v, dict) and "__class__" in v:
@@ -619,6 +728,59 @@ def single_defs(fn: FunctionInfo) -> dict[str, ast.AST]:
         if not changed:
             break
     return out
+
+
+def filtered_copy(fn: FunctionInfo, target: str, source: str):
+    """Recognise `target = <the elements of source that satisfy P>` in ``fn`` whatever way it is written: a list comprehension over the
+    source with one `if`; the same through a once-bound local; or a fresh local list filled by one loop over the source that appends the
+    element under one `if` (the local then being stored, or being the target itself).
+    Returns (statements involved, final store statement, frozenset of P's atom signatures with the element variable written `E`), or
+    ([], store-or-None, None) when the shape is not recognised.  ``source`` is compared with the iterated expression, spaces removed."""
+    sd = single_defs(fn)
+    nsp = lambda e_: unparse(e_).replace(" ", "")
+    stores = [s_ for s_ in walk_stmts(fn.node.body) if isinstance(s_, (ast.Assign, ast.AnnAssign)) and s_.value is not None and path_of(s_.targets[0] if isinstance(s_, ast.Assign) else s_.target) == target]
+    if len(stores) != 1:
+        return [], None, None
+    st = stores[0]
+
+    def from_comp(c):
+        if isinstance(c, ast.ListComp) and len(c.generators) == 1 and len(c.generators[0].ifs) == 1 and nsp(c.generators[0].iter) == source \
+                and isinstance(c.generators[0].target, ast.Name) and path_of(c.elt) == c.generators[0].target.id:
+            return c.generators[0].target.id, c.generators[0].ifs[0]
+        return None
+
+    def from_loop(lst_name):
+        loops = [l_ for l_ in walk_stmts(fn.node.body) if isinstance(l_, ast.For) and nsp(l_.iter) == source and isinstance(l_.target, ast.Name)
+                 and any(path_of(k.func) == f"{lst_name}.append" for k in calls_in(l_))]
+        if len(loops) == 1 and len(loops[0].body) == 1 and isinstance(loops[0].body[0], ast.If) and not loops[0].body[0].orelse:
+            if_ = loops[0].body[0]
+            apps = [x for x in if_.body if isinstance(x, ast.Expr) and isinstance(x.value, ast.Call) and path_of(x.value.func) == f"{lst_name}.append" and [path_of(a_) for a_ in x.value.args] == [loops[0].target.id]]
+            others = [k for k in calls_in(fn.node) if path_of(k.func) in (f"{lst_name}.append", f"{lst_name}.extend", f"{lst_name}.insert") and not any(k is x.value for x in apps)]
+            if len(apps) == 1 and len(if_.body) == 1 and not others:
+                return loops[0], (loops[0].target.id, if_.test)
+        return None, None
+    involved = [st]
+    got = from_comp(st.value)
+    if got is None and isinstance(st.value, ast.List) and not st.value.elts and "." not in target:
+        lp, got = from_loop(target)
+        if lp is not None:
+            involved.append(lp)
+    if got is None and isinstance(st.value, ast.Name):
+        defs = [s_ for s_ in walk_stmts(fn.node.body) if isinstance(s_, (ast.Assign, ast.AnnAssign)) and path_of(s_.targets[0] if isinstance(s_, ast.Assign) else s_.target) == st.value.id and s_.value is not None]
+        if len(defs) == 1:
+            involved.append(defs[0])
+            got = from_comp(defs[0].value)
+            if got is None and isinstance(defs[0].value, ast.List) and not defs[0].value.elts:
+                lp, got = from_loop(st.value.id)
+                if lp is not None:
+                    involved.append(lp)
+    if got is None:
+        return [], st, None
+    var, test = got
+    test = expand(test, {k_: v_ for k_, v_ in sd.items() if k_ != var})
+    from ..facts import atoms
+    sigs = frozenset((f.sig[0], f.sig[1].replace(f"{var}.", "E."), f.sig[2].replace(f"{var}.", "E.")) for f in atoms(test, True))
+    return involved, st, sigs
 
 
 def _all_targets(st: ast.stmt) -> list[ast.AST]:
